@@ -85,6 +85,14 @@ def ops_family(seed, tier, ws):
     progs.append(('isint_bool', 'int a, int b', 'bool p = a > b;', '(p is int)', 'ii', ARITH_TEMPLATE))
     progs.append(('isbyte_bool', 'int a, int b', 'bool p = a > b;', '((p is byte) is int)', 'ii', ARITH_TEMPLATE))
     progs.append(('byte_widen', 'byte a, byte b', '', '(a - b)', 'bb', ARITH_TEMPLATE))
+    # comparisons whose operand is itself arithmetic that may wrap, or arithmetic over bytes that leaves the byte range
+    for op in cmpops:
+        progs.append(('cmp_diff0_' + op, 'int a, int b', '', '((a - b) %s 0)' % op, 'ii', POS_TEMPLATE))
+    for nm, e in (('bytesum_lt256', '((a + b) < 256)'), ('byteprod_gt255', '((a * b) > 255)'), ('byteneg_lt0', '((-a) < 0)'), ('bytediff_ge0', '((a - b) >= 0)'),
+                  ('bytesum_eq', '((a + b) == 300)'), ('byte_vs_neg', '(a > (0 - 1))')):
+        progs.append(('cmp_' + nm, 'byte a, byte b', '', e, 'bb', POS_TEMPLATE))
+    for nm, e in (('muldiv_same', '((a * 100) / 100)'), ('muldiv_7', '((a * 7) / 7)'), ('divmul', '((a / 3) * 3)'), ('addsub', '((a + b) - b)'), ('mulmod', '((a * 256) % 256)')):
+        progs.append(('ar_' + nm, 'int a, int b', '', e, 'ii', ARITH_TEMPLATE))
     # the same operators with operands that are not parameters: mutable globals, array elements, call results, lengths
     hdrs = {}
     for sk, hdr, pre, A, B in (('glob', 'int ga = 0; int gb = 0;', 'ga = a; gb = b;', 'ga', 'gb'),
@@ -241,7 +249,7 @@ def const_family(seed, tier):
             cl, cl, esc(bs[0]), esc(bs[5]), dump('GC'), dump('GM'))
         items.append(runner.Item(('c13', 'global_chars', lo), src, [], s=80, meta={'family': 'const_global_char_arrays'}))
     # raw (unescaped in the source) printable characters
-    raw = ''.join(chr(c) for c in range(32, 127) if chr(c) not in '"\\')
+    raw = '\t' + ''.join(chr(c) for c in range(32, 127) if chr(c) not in '"\\') + '\t\t.'
     items.append(runner.Item(('c13', 'raw'), 'empty @is_you() { string s = "%s"; %s }' % (raw, dump('s')), [], s=80,
                              meta={'family': 'const_raw'}))
     special = [0x5c, 0x22, 0x27, 0x0a, 0x0d, 0x00, 0x20, 0x7e, 0x7f, 0x80, 0xff, 0x41]
@@ -475,6 +483,11 @@ empty @is_you(int v) { try { !chk(v); write('n'); } stop { write('h'); } write(p
      None, [['0'], ['7'], ['9']]),
 ]
 
+FOLD_PROGRAMS.append(('literal_length_effects', '''int g = 0; int side(int v) { g += 1; write('s'); return v; }
+empty @is_you(int a) { write([side(a), side(a + 1)].length); write(g); write(["x", "yz"].length); write([side(1)].length + "abc".length); write(g); if ([side(a)].length == 1) { write('t'); } write(g); int n = [a, side(a), 3].length * 2; write(n); write(g); }''',
+                      '''int g = 0; int side(int v) { g += 1; write('s'); return v; }
+empty @is_you(int a) { int[] t1 = [side(a), side(a + 1)]; write(t1.length); write(g); string[] t2 = ["x", "yz"]; write(t2.length); int[] t3 = [side(1)]; string t4 = "abc"; write(t3.length + t4.length); write(g);
+  int[] t5 = [side(a)]; if (t5.length == 1) { write('t'); } write(g); int[] t6 = [a, side(a), 3]; int n = t6.length * 2; write(n); write(g); }''', [['0'], ['5']]))
 FOLD_PROGRAMS.append(('literal_zero_elements', '''int fill(int x) { int[] junk = [x, x + 1, x + 2, x + 3, x + 4, x + 5]; return junk[5]; }
 empty @is_you(int x) { write(fill(x)); write(' '); for (int i = 0; i < 2; i += 1) { { int[] a = [9, 9, 9, 9, x + 9]; write(a[4]); } { int[] b = [x, 0, 0, 0, 0]; write(b[0] + b[1] + b[2] + b[3] + b[4]); write(' ');
   byte[] c = [(x is byte), 0, 0]; write(c[1] is int); write(c[2] is int); bool[] d = [x > 0, false, false, false, false, false, false, false, false, false]; write(d[1]); write(d[9]); write(f3([x, 0, 0])); } } }
